@@ -4,7 +4,7 @@
   A member is given by `Params`:
     * `sof`     the start byte (any of the 256 values);
     * `fields`  the header fields that follow the start byte, in wire order: a length field
-                (`len n be`: 1 or 2 bytes, little- or big-endian, holding the TOTAL frame length like
+                (`len n be`: 1 to 4 bytes, little- or big-endian, holding the TOTAL frame length like
                 the built-in codec), the frame id (1 byte) and filler bytes (`fill b`: written as `b`,
                 ignored when decoding).  The start byte is always the first header byte: `hdr_find`
                 returns the index at which the header starts and `comm.py`/`parserecv.py` crop the
@@ -12,7 +12,7 @@
     * `foot`    the footer, computed over header ++ payload: XOR of all bytes (1 byte), additive sum
                 modulo 2^(8k) (k = 1..4 bytes, LE or BE) or CRC-32 (IEEE 802.3, reflected; 4 bytes,
                 LE or BE).
-  `Params.valid`: exactly one length field (1 or 2 bytes), exactly one id field, header length
+  `Params.valid`: exactly one length field (1..4 bytes), exactly one id field, header length
   3..8, footer length 1..4.
 
   `hdrDecode` validates like the built-in codec: too short → HDR, wrong start byte → HDR, id not in
@@ -56,9 +56,9 @@ def Field.isFid : Field → Bool
   | .fid => true
   | _ => false
 
-/-- the length field is 1 or 2 bytes wide -/
+/-- the length field is 1 to 4 bytes wide -/
 def Field.ok : Field → Bool
-  | .len n _ => n == 1 || n == 2
+  | .len n _ => decide (1 ≤ n) && decide (n ≤ 4)
   | _ => true
 
 def widthSum : List Field → Nat
